@@ -40,6 +40,10 @@ class BiasGeluFusion(pattern.RewriteRuleClassBase):
 
         if not _ir_utils.has_rank(bias, 1):
             return check_result.fail("bias is not of shape 1D tensor", bias)
+        # BiasGelu requires len(bias) == input.shape[-1] (no broadcasting on either side).
+        last_dim = _ir_utils.get_dim(input, -1)
+        if not isinstance(last_dim, int) or last_dim != bias.shape[0]:
+            return check_result.fail("bias length does not match the last dimension of input", bias)
 
         return check_result
 
